@@ -1,3 +1,5 @@
 -- Root of the `AmVerif` library: models, generated definitions, property theorems, audit.
 import AmVerif.Props.C18
 import AmVerif.Props.C03
+import AmVerif.Props.C02
+import AmVerif.Props.C01
